@@ -2,8 +2,9 @@ SPEC = dict(
     claimed=True,
     title='External interference with a fan is undone within one control cycle',
     props_file='Props/C05.v', props_mod='Props.C05',
+    props_extra=[('Props/C05Link.v', 'Props.C05Link')],
     proof_files=['Proofs/Rescale.v', 'Proofs/Ctrl.v', 'Proofs/CtrlC05.v', 'Drv/CtrlC05.v'],
-    tie_vo=['Proofs/LeafTie.vo', 'Proofs/ConstsTie_basic.vo', 'Proofs/ConstsTie_clamp.vo', 'Proofs/ConstsTie_stall.vo'],
+    tie_vo=['Proofs/LeafTie.vo', 'Proofs/ConstsTie_basic.vo', 'Proofs/ConstsTie_clamp.vo', 'Proofs/ConstsTie_stall.vo', 'Proofs/LeafTie2_calcTarget.vo', 'Proofs/LeafTie2_DirectCycle.vo', 'Proofs/LeafTie2_PidCycle.vo', 'Proofs/LeafTie2_applyPwmMapping.vo', 'Proofs/LeafTie2_HwMonGetMinPwm.vo', 'Proofs/LeafTie2_HwMonGetMaxPwm.vo', 'Proofs/LeafTie2_HwMonGetRpmAvg.vo', 'Proofs/LeafTie2_HwMonSetRpmAvg.vo', 'Proofs/LeafTie2_HwMonShouldNeverStop.vo'],
     drivers=[dict(name='ctrl', drv_mod='Drv.CtrlC05', drv_file='Drv/CtrlC05.v', shard=100,
                   args={'quick': ['n=600'], 'thorough': ['n=12000']}, timeout={'quick': 900, 'thorough': 6000})],
     rule='seeded histories of 1..40 control cycles with interleaved RPM polls, external interference and device faults on real '
